@@ -95,7 +95,7 @@ def handleStack (case : Nat) (j : Json) : IO Unit := do
   let cBody := unhex (jstr (jget cl "body_hex"))
   let cHdrs := sortPairs (parsePairs (jget cl "headers"))
   let cErr := jstr (jget cl "err")
-  let ollaErr := Olla.Driver.C02.isOllaError cStatus (jstr (jget cl "content_type")) cBody
+  let ollaErr := Olla.Driver.C02.isOllaError cStatus (jstr (jget cl "content_type")) cHdrs cBody (eps.map (·.resp.body))
   let order := (jstrList (jget impl "order")).map (idxOf eps)
   let implOffline := (eps.filter (fun e => jstr (jget (jget impl "statuses") e.name) == "offline")).map (·.idx)
   let attemptsOf := fun (e : EpSpec) => jnat ((jarr (jget (jget impl "per_ep") e.name)).getD 0 Json.null)
